@@ -181,7 +181,7 @@ PROPS = {
                               "PgBifrost.Props.C15.cant_fit_not_lost", "PgBifrost.Props.C15.too_big_counted",
                               "PgBifrost.Props.C15.limits_are_the_documented_ones", "PgBifrost.Props.C15.reaction_per_error_class",
                               "PgBifrost.Props.C15.kinesis_add_as_in_source", "PgBifrost.Props.C15.generic_add_as_in_source",
-                              "PgBifrost.Props.C15.kafka_add_as_in_source"],
+                              "PgBifrost.Props.C15.kafka_add_as_in_source", "PgBifrost.Props.C15.factory_options_as_in_source"],
         "assumptions": ["Kinesis record + partition key fits an empty batch (|key| <= 4 MiB)"],
     },
     "C16": {
